@@ -22,7 +22,8 @@ MANIFEST = {
             "tied to Parser.py by evaluating it on the mutation stream (every byte truncation of small documents, every single end-tag fault, stray "
             "insertions at every boundary) next to the implementation, and every mutant an independent reference reader finds improperly nested must raise.",
     "note": "Trusted: Coq kernel + vm_compute; Model/Sgml.v (hand transcription incl. the probed behaviour of the C-accelerated xml.etree TreeBuilder), "
-            "validated by correspondence only. parse_ok_implies_nested holds for every configuration with the repaired builder (fix 8ba58b0), whatever the regex; "
+            "validated by correspondence only (AST hashes of the transcribed functions are tripwires that widen the search; the regex variant, the start/end/close overrides, "
+            "added public/overriding TreeBuilder methods and the calls made by OFXTree.parse/_read fail closed). parse_ok_implies_nested holds for every configuration with the repaired builder (fix 8ba58b0), whatever the regex; "
             "the corollaries use both repairs. On the unrepaired builder the theorem is false (parse_ok_implies_nested_refuted_legacy) and the check reports the accepted mutants.",
 }
 
@@ -177,7 +178,7 @@ def run(rep, tier, rng):
     importlib.reload(P)
     variant = repo_variant()
     thorough = tier == "thorough"
-    rep.extra["source_variant"] = {k: variant[k] for k in ("cdata_lazy", "checked", "known")}
+    rep.extra["source_variant"] = {k: variant[k] for k in ("cdata_lazy", "checked", "known", "source_changes", "source_problems")}
     fails = rep.failures
     texts = []
     obs = []
